@@ -582,9 +582,14 @@ def rule_e6(chk: Check, ix: Index):
         f = ix.get(q)
         paths = stmt_paths(list(f.node.body))
         bad_ret, leaks, n_none = [], [], 0
+        returned = {pth[-1][2] for pth in paths if pth[-1][1] == "return" and re.fullmatch(r"[A-Za-z_]\w*", pth[-1][2] or "")}
         for pth in paths:
             kind, val = pth[-1][1], pth[-1][2]
             if kind == "raise":
+                # the None case of a returned local that ends in an explicit raise is a None test too
+                if any(x[0] == "cond" and any((x[1] == f"{v} is None" and x[2] is True) or (x[1] == f"{v} is not None" and x[2] is False)
+                                              for v in returned) for x in pth):
+                    n_none += 1
                 continue
             if kind == "end":
                 leaks.append(f"{q} falls off the end (returns None)")
